@@ -36,7 +36,8 @@ class FnSpec(object):
     def __init__(self, qual, types=None, returns=None, requires=(), ensures=(), raises=None,
                  modifies=(), loops=None, inline=False, decreases=None, ghost_exit=None, at=None,
                  abstract=False, pure=False, yields=None, defs=None, lemmas=(), alloc_as=None,
-                 mutates=(), use=(), trusted=False, note=None, exc_post=None):
+                 mutates=(), use=(), trusted=False, note=None, exc_post=None, dead_ok=()):
+        self.dead_ok = list(dead_ok)           # statements allowed to be unreachable under the precondition
         self.qual = qual
         self.module, self.path = qual.split(":")
         self.types = dict(types or {})
@@ -123,6 +124,27 @@ class Spec(object):
         if not hasattr(self, "recfuns"):
             self.recfuns = {}
         self.recfuns[name] = (params, returns, body)
+
+    def lemma_fn(self, func, cls=None, module="problog.util", **kw):
+        """A ghost lemma with a contract, proved by symbolic execution of its (recursive) body:
+        recursion uses the lemma's own contract, `decreases` gives well-foundedness.  Functions
+        listing it under `use=` may assume `forall params: requires => ensures`."""
+        src = textwrap.dedent(inspect.getsource(func))
+        tree = ast.parse(src).body[0]
+        tree.decorator_list = []
+        types = dict(kw.pop("types", {}))
+        for a in tree.args.args:
+            if a.annotation is not None:
+                types.setdefault(a.arg, a.annotation.value if isinstance(a.annotation, ast.Constant)
+                                 else ast.unparse(a.annotation))
+        f = FnSpec("%s:%s%s" % (module, (cls + ".") if cls else "", func.__name__), types=types, **kw)
+        f.src = tree
+        f.is_lemma_fn = True
+        if not hasattr(self, "lemma_fns"):
+            self.lemma_fns = {}
+        self.lemma_fns[func.__name__] = f
+        self.fns["lemmafn:" + func.__name__] = f
+        return func
 
     def assume(self, text):
         self.assumptions.append(text)
